@@ -313,7 +313,18 @@ def rule_memo_key(facts):
                     r.violations.append(V("MEMO-KEY", b["uname"], "identity does not depend on the parser value",
                                           "the parser-identity component of the memo key (%s) is not derived from `self`: distinct memoised "
                                           "parsers of the same type share entries" % fmt_roots(idroots)[:120], *loc(b)))
-    if not ok:
+    if not ok and keyl is not None:
+        # the table is keyed by something that is not a (position, identity) pair: a single word mixing both (address + offset,
+        # a hash, only one of the two) makes distinct (position, parser) pairs share an entry
+        pv = Prov(b)
+        kr = fmt_roots(pv.of_local(keyl["l"]))
+        r.ob(False)
+        r.violations.append(V("MEMO-KEY", b["uname"], "key is not a (position, identity) pair",
+                              "the memo table must be keyed by the pair (cursor_location(start), parser identity), compared component-wise; "
+                              "the key handed to memos.entry is `%s`: distinct (position, parser) pairs can collide, so one parser's stored "
+                              "failure or in-progress marker is replayed for another" % kr[:200], *loc(b)))
+        why = "key = %s" % kr[:120]
+    elif not ok:
         r.errors.append("could not locate the memo key construction in Memoized::go")
     r.explanation = ("the memo key is (cursor_location(start), identity); the identity component must distinguish distinct memoised parsers "
                      "(%s)" % why)
